@@ -697,6 +697,7 @@ func Generate(prop, tier string, seed uint64) []GenCase {
 	default:
 		out = genSmoke(seed)
 	}
+	out = append(genRegress(prop, seed+99), out...)
 	return out
 }
 
